@@ -106,6 +106,9 @@ func export(cmd *cobra.Command, args []string) error {
 		Off:        off,
 		Reward:     reward.String(),
 	}
+	if _, safeReward := currentState.App().Reward(); safeReward != nil {
+		appState.PrevReward.SafeReward = safeReward.String()
+	}
 	var jsonBytes []byte
 	if indent {
 		jsonBytes, err = amino.NewCodec().MarshalJSONIndent(appState, "", "	")
